@@ -35,7 +35,7 @@ ASSUMPTIONS = [
 REQUIRED_MONITORS = ["rows", "emo_compared", "dipole_compared", "hf_compared", "translation_pairs", "rows_uhf",
                      "rows_ion", "rows_excited", "batchcell_activemix", "batchcell_chargemix", "rows_ground_in_mixed_active_batch",
                      "gap_vs_alone_compared", "rows_dispersion_nonzero", "xl_calls", "xl_calls_krylov",
-                     "xl_rows_dm_differs_from_P0", "orbital_pairs_checked", "repeat_calls_with_cycle_of_length_ge3"]
+                     "xl_rows_dm_differs_from_P0", "orbital_pairs_checked", "repeat_calls_with_cycle_of_length_ge3", "orbital_population_rows"]
 CASE_TIMEOUT = 600.0
 BUDGET_S = {"quick": float(os.environ.get("VERIF_BUDGET_QUICK", 200)), "thorough": float(os.environ.get("VERIF_BUDGET_THOROUGH", 1500))}
 
@@ -237,6 +237,15 @@ def gen_cases(tier, seed):
     named = _batch_cells(g, tier) + _disp_and_xl_cells(g, tier)
     # repeated calls on molecules with 3-fold degenerate level sets and large kicks, so that the orbital tracker produces
     # permutations with cycles of length >= 3 (where a permutation and its inverse differ)
+    # zero-padded batches with mixed heavy / hydrogen counts for the per-orbital population clause
+    for method, names in (("AM1", ["CH2O", "CH3OH", "H2O"]), ("PM3", ["H2O", "CH3OH", "HCN"]), ("MNDO", ["NH4+", "CH2O", "H2"])) \
+            + (() if quick else (("PM6_SP", ["CH3F", "H2O", "CH4"]), ("AM1", ["OH-", "C2H4", "HCOOH"]))):
+        for conv in ([2], [1]):
+            c = c01._lib_case(g, tier, method=method, name=names[0], layout="padded", conv=conv, sigma=0.05, sp2=False,
+                              orient=c01._orient_generic())
+            c.update({"sp2": None, "modes": ["autodiff"], "eps": 1e-10, "tier": tier, "mates": names[1:], "target_pos": 0,
+                      "extra_pad": 1, "pad_value": 0.0, "uhf": False})
+            named.append(c)
     deg = [("CH4", "AM1"), ("NH4+", "PM3"), ("SiH4", "MNDO"), ("C2H6", "AM1"), ("CH4", "PM6_SP")]
     if not quick:
         deg += [("CH4", "MNDO"), ("NH4+", "AM1"), ("SiH4", "PM3"), ("BH3", "MNDO"), ("C2H6", "PM3"), ("NH3", "AM1"),
